@@ -53,7 +53,7 @@ func DefinedBits() []int {
 type Account struct {
 	Login    string
 	Name     string
-	Password string // clear text
+	Password string // clear text (the server stores a hash of the obfuscated bytes the client sends)
 	Access   []byte // 8 bytes
 	FileRoot string
 }
@@ -91,7 +91,7 @@ func yamlQuote(s string) string {
 // AccountYAML renders an account file in the named-flag format.
 func AccountYAML(a Account) string {
 	var sb strings.Builder
-	fmt.Fprintf(&sb, "Login: %s\nName: %s\nPassword: %s\nAccess:\n", yamlQuote(a.Login), yamlQuote(a.Name), yamlQuote(HashPassword(a.Password)))
+	fmt.Fprintf(&sb, "Login: %s\nName: %s\nPassword: %s\nAccess:\n", yamlQuote(a.Login), yamlQuote(a.Name), yamlQuote(HashPassword(string(refcodec.Obfuscate([]byte(a.Password))))))
 	// DownloadFile first: the loader recognises the new format by this key.
 	order := append([]int{2}, DefinedBits()...)
 	seen := map[int]bool{}
@@ -409,4 +409,10 @@ func Diff(a, b map[string]string) []string {
 	}
 	sort.Strings(d)
 	return d
+}
+
+// WriteFile creates path (and its parent directories) with the given content.
+func WriteFile(path, content string) {
+	os.MkdirAll(filepath.Dir(path), 0755)
+	os.WriteFile(path, []byte(content), 0644)
 }
